@@ -123,6 +123,9 @@ static FLIPPED: AtomicU64 = AtomicU64::new(0);
 /// Counting quota which remembers what had been done when it flipped.
 pub struct FlipQuota {
     pub limit: u64,
+    /// concurrent observation: the poll coordinate is the position on the scheduler's virtual timeline (kernel/sched.rs)
+    pub lockstep: bool,
+    pub true_polls: AtomicU64,
     pub polls: AtomicU64,
     pub flip_insertions: AtomicU64,
     pub flip_rounds: AtomicU64,
@@ -130,9 +133,10 @@ pub struct FlipQuota {
 
 impl Quota for FlipQuota {
     fn is_reached(&self) -> bool {
-        let c = self.polls.fetch_add(1, Ordering::SeqCst);
+        let n = self.polls.fetch_add(1, Ordering::SeqCst);
+        let c = if self.lockstep { crate::kernel::sched::vt_tick() } else { n };
         sys::log_event(0x0107A, c, self.limit);
-        if c == self.limit {
+        if c >= self.limit && self.true_polls.fetch_add(1, Ordering::SeqCst) == 0 {
             FLIPPED.store(1, Ordering::SeqCst);
             self.flip_insertions.store(INSERTIONS.load(Ordering::SeqCst), Ordering::SeqCst);
             self.flip_rounds.store(ROUNDS.load(Ordering::SeqCst), Ordering::SeqCst);
@@ -175,13 +179,16 @@ pub struct CrashBase {
     /// an additional termination criterion of the caller (public `with_termination`): 0 none, 1 one which does not fire
     /// (it gives up only far beyond the generation limit), 2 one which fires at half of the generation limit
     pub custom_termination: u8,
+    /// quota mode only: leaves of one fork-join which run on different workers observe the quota concurrently
+    /// (virtual timeline of kernel/sched.rs) instead of one after the other
+    pub lockstep: bool,
 }
 
 impl CrashBase {
     pub fn to_json(&self) -> Value {
         json!({ "kind": "crash", "problem": self.problem, "matrices": self.matrices, "spec": self.spec.to_json(),
             "max_generations": self.max_generations, "max_time": self.max_time, "hyper": self.hyper, "cpus": self.cpus,
-            "pools": [self.pools.0, self.pools.1], "init_size": self.init_size, "init_quota": self.init_quota, "custom_termination": self.custom_termination })
+            "pools": [self.pools.0, self.pools.1], "init_size": self.init_size, "init_quota": self.init_quota, "custom_termination": self.custom_termination, "lockstep": self.lockstep })
     }
     pub fn from_json(v: &Value) -> Option<Self> {
         Some(CrashBase {
@@ -196,6 +203,7 @@ impl CrashBase {
             init_size: v.get("init_size")?.as_u64()? as usize,
             init_quota: v.get("init_quota")?.as_f64()?,
             custom_termination: v.get("custom_termination").and_then(|x| x.as_u64()).unwrap_or(0) as u8,
+            lockstep: v.get("lockstep").and_then(|x| x.as_bool()).unwrap_or(false),
         })
     }
 }
@@ -205,7 +213,10 @@ pub struct CrashOut {
     pub rejected: Option<String>,
     pub error: Option<String>,
     pub solution: Option<String>,
+    /// length of the poll coordinate: number of polls, or (concurrent observation) the end of the virtual timeline
     pub polls: u64,
+    pub total_polls: u64,
+    pub concurrent_leaf_starts: u64,
     pub polls_after_flip: u64,
     pub search_rounds: u64,
     pub offspring: u64,
@@ -232,6 +243,8 @@ pub fn execute(base: &CrashBase, k: u64, stalls: &[(u64, u64)]) -> RunOutcome<Cr
                 return sys::monitor(|| CrashOut { rejected: Some(msg.as_str().to_string()), ..Default::default() });
             }
         };
+        let lockstep = base.lockstep && base.max_time.is_none();
+        sys::monitor(|| crate::kernel::sched::vt_reset(lockstep));
         INSERTIONS.store(0, Ordering::SeqCst);
         ROUNDS.store(0, Ordering::SeqCst);
         crate::scen::flagwatch::reset();
@@ -264,9 +277,9 @@ pub fn execute(base: &CrashBase, k: u64, stalls: &[(u64, u64)]) -> RunOutcome<Cr
             }
         })));
         FLIPPED.store(0, Ordering::SeqCst);
-        let quota = Arc::new(FlipQuota { limit: k, polls: AtomicU64::new(0), flip_insertions: AtomicU64::new(u64::MAX), flip_rounds: AtomicU64::new(u64::MAX) });
+        let quota = Arc::new(FlipQuota { limit: k, lockstep, true_polls: AtomicU64::new(0), polls: AtomicU64::new(0), flip_insertions: AtomicU64::new(u64::MAX), flip_rounds: AtomicU64::new(u64::MAX) });
         let parallelism =
-            if base.pools.0 > 0 { Parallelism::new(base.pools.0, base.pools.1) } else { Parallelism::new_with_cpus(base.cpus) };
+            if base.pools != (0, 0) { Parallelism::new(base.pools.0, base.pools.1) } else { Parallelism::new_with_cpus(base.cpus) };
         let env_quota: Option<Arc<dyn Quota>> = match base.max_time {
             // time mode: exactly what Environment::new_with_time_quota installs
             Some(t) => Some(Arc::new(vrp_core::rosomaxa::utils::TimeQuota::new(t as Float))),
@@ -300,7 +313,10 @@ pub fn execute(base: &CrashBase, k: u64, stalls: &[(u64, u64)]) -> RunOutcome<Cr
             .map(|config| Solver::new(problem.clone(), config))
             .and_then(|solver| solver.solve());
         vrp_core::verif::set_insertion_observer(None);
-        let polls = quota.polls.load(Ordering::SeqCst);
+        let total_polls = quota.polls.load(Ordering::SeqCst);
+        let polls = if lockstep { crate::kernel::sched::vt_now() } else { total_polls };
+        let true_polls = quota.true_polls.load(Ordering::SeqCst);
+        let concurrent_leaf_starts = crate::kernel::sched::vt_overlaps();
         let insertions = INSERTIONS.load(Ordering::SeqCst);
         let flip_ins = quota.flip_insertions.load(Ordering::SeqCst);
         let after = if flip_ins != u64::MAX && quota.flip_rounds.load(Ordering::SeqCst) == 0 { Some(insertions - flip_ins) } else { None };
@@ -319,7 +335,9 @@ pub fn execute(base: &CrashBase, k: u64, stalls: &[(u64, u64)]) -> RunOutcome<Cr
             error: error.as_ref().map(|e| e.as_str().to_string()),
             solution: text.as_ref().map(|t| t.as_str().to_string()),
             polls,
-            polls_after_flip: polls.saturating_sub(k),
+            total_polls,
+            concurrent_leaf_starts,
+            polls_after_flip: true_polls,
             search_rounds: stats.search_rounds.load(Ordering::SeqCst),
             offspring: stats.offspring.load(Ordering::SeqCst),
             parents_checked: stats.parents_checked.load(Ordering::SeqCst),
@@ -367,11 +385,15 @@ pub fn make_base(seed: u64, tier: Tier) -> (CrashBase, gen::problem::Features) {
         max_time: if time_mode { Some(*p.pick(&[30u64, 300])) } else { None },
         hyper: p.pick(&["dynamic", "static"]).to_string(),
         cpus: *p.pick(&[1usize, 2, 4, 8]),
-        pools: *p.pick(&[(0usize, 0usize), (0, 0), (0, 0), (1, 2), (2, 2), (4, 1)]),
+        pools: *p.pick(&[(0usize, 0usize), (0, 0), (0, 0), (1, 2), (2, 2), (4, 1), (2, 0), (0, 3)]),
         init_size: p.usize(1, 4),
         init_quota: *p.pick(&[0.05, 0.5, 1.0]),
         custom_termination: *p.pick(&[0u8, 0, 0, 0, 0, 1, 1, 2]),
+        lockstep: false,
     };
+    // (drawn last so that every other choice of a base is the one earlier versions made for the same seed)
+    let mut base = base;
+    base.lockstep = !time_mode && p.chance(0.4);
     (base, g.features)
 }
 
@@ -427,11 +449,12 @@ fn judge(base: &CrashBase, model: &PModel, out: &RunOutcome<CrashOut>, what: &st
                 issues.push(("C07".into(), "too-many-rounds".into(), format!("{what}: {} refinement rounds for maxGenerations {}", o.search_rounds, base.max_generations)));
             }
             if let Some(n) = o.insertions_after_flip_in_construction {
-                if n > 0 && base.max_time.is_none() {
+                // (concurrent observation: a leaf which is concurrent to the one that saw the flip legitimately keeps inserting)
+                if n > 0 && base.max_time.is_none() && !base.lockstep {
                     issues.push(("C07".into(), "work-after-interrupt".into(), format!("{what}: {n} insertions were applied by the construction heuristic after the quota was reached")));
                 }
             }
-            if base.max_time.is_none() && o.polls_after_flip > 1024 && o.polls_after_flip != o.polls {
+            if base.max_time.is_none() && o.polls_after_flip > 1024 && o.polls_after_flip != o.total_polls {
                 issues.push(("C07".into(), "quota-ignored".into(), format!("{what}: the quota was polled {} more times after it was reached", o.polls_after_flip)));
             }
             for (rule, msg) in &o.monitor_issues {
@@ -546,7 +569,7 @@ impl CrashScenario {
         let (n_polls, m_reads) = (free.result.as_ref().map(|o| o.polls).unwrap_or(0), free.clock_reads);
         rec.count("fault_free.quota_polls", n_polls);
         rec.count("fault_free.clock_reads", m_reads);
-        rec.count(&format!("mode.{}", if base.max_time.is_some() { "time_limit" } else { "counting_quota" }), 1);
+        rec.count(&format!("mode.{}", if base.max_time.is_some() { "time_limit" } else if base.lockstep { "counting_quota_concurrent_observation" } else { "counting_quota" }), 1);
         rec.count(&format!("hyper.{}", base.hyper), 1);
         rec.count("monitor.search_rounds", free.result.as_ref().map(|o| o.search_rounds).unwrap_or(0));
         rec.count("monitor.offspring_checked", free.result.as_ref().map(|o| o.offspring).unwrap_or(0));
@@ -577,7 +600,11 @@ impl CrashScenario {
             let what = if base.max_time.is_some() { format!("time limit hit at clock read {k}") } else { format!("quota flips at poll {k}") };
             let j = judge(base, &model, &out, &what);
             if let Ok(o) = &out.result {
-                rec.count("faults.fired", (base.max_time.is_some() && out.stalls_fired > 0 || base.max_time.is_none() && o.polls > k) as u64);
+                rec.count("faults.fired", (base.max_time.is_some() && out.stalls_fired > 0 || base.max_time.is_none() && o.polls_after_flip > 0) as u64);
+                if base.lockstep && base.max_time.is_none() {
+                    rec.count("faults.concurrent_observation.executions", 1);
+                    rec.count("faults.concurrent_observation.leaves_started_behind_a_sibling", o.concurrent_leaf_starts);
+                }
                 rec.count("faults.polls_after_flip_total", o.polls_after_flip.min(1 << 20));
                 rec.count("faults.flips_during_construction_checked_for_work_after", o.insertions_after_flip_in_construction.is_some() as u64);
                 rec.count("outcome.insertions_applied", o.insertions);
@@ -588,7 +615,7 @@ impl CrashScenario {
                     65..=256 => "65-256",
                     _ => "257+",
                 };
-                if base.max_time.is_none() && o.polls > k {
+                if base.max_time.is_none() && o.polls_after_flip > 0 {
                     rec.count(&format!("faults.polls_after_flip.{bucket}"), 1);
                 }
                 // phase of the interruption, derived from what the interrupted run had done
@@ -700,7 +727,7 @@ impl Scenario for CrashScenario {
             assumptions: vec![
                 "crash = cooperative cancellation (quota turns true and stays true) or a positive time limit hit; the system has no durable state".into(),
                 "the execution is deterministic, so the prefix before poll k is bit-identical to the fault-free run (checked by the determinism sample)".into(),
-                "leaf tasks of one fork-join are atomic w.r.t. each other: two concurrent leaves are not interleaved between their polls".into(),
+                "leaf tasks of one fork-join are executed one after the other; in 40 % of the counting-quota bases their quota observations are concurrent (virtual timeline per worker: each worker counts on from the fork, the join continues from the maximum), so several leaves see the flip in the middle of their work; state is never shared between leaves (no Sync interior mutability in the library), so this is the only thing interleaving could change".into(),
                 "exhaustive over the crash-point coordinate only for the enumerated bases; the bases are sampled".into(),
             ],
             components_real: vec!["rosomaxa", "vrp-core (Solver, default dynamic/static heuristics)", "vrp-pragmatic (reader, writer)"],
